@@ -2,7 +2,9 @@ package rules
 
 import (
 	"fmt"
+	"go/token"
 	"go/types"
+	"net"
 	"strings"
 
 	"golang.org/x/tools/go/ssa"
@@ -237,6 +239,11 @@ func ruleSendGuard(c *Ctx, a *udpAnchors, rule string) {
 		c.CheckAt(rule, key+":after-authentication", t.call, a.R.CutDeep(t.call, a.gAuth), "reachable on a path on which the datagram was not successfully decrypted under a key (no success edge of shadowsocks.Unpack is crossed on the way from the start of datagram handling)")
 		c.CheckAt(rule, key+":after-destination-validation", t.call, a.R.CutDeep(t.call, a.gVal), "reachable on a path on which the destination of this datagram was not validated by the IP validator (e.g. only the first datagram of an association is checked, or a cached verdict is used)")
 		c.CheckAt(rule, key+":after-address-header-parsed", t.call, a.R.CutDeep(t.call, a.gSplit), "reachable on a path on which the SOCKS address header of this datagram did not parse")
+	}
+	// the stages run in order: the address header is parsed (and the destination resolved and validated) only from a datagram
+	// that decrypted — so a datagram that fails to decrypt is reported as such, not as a malformed address
+	for i, sp := range a.splits {
+		c.CheckAt(rule, fmt.Sprintf("parse#%d:only-after-successful-decryption", i), sp, a.R.CutDeep(sp, a.gAuth), "the address header is parsed on a path on which decryption has not succeeded (its error is tested only afterwards): the datagram's real outcome, a decryption failure, is reported as an address error")
 	}
 	isRes := func(x ssa.Value) bool { return inCalls(x, a.resolves, 0) }
 	for i, s := range a.sends {
@@ -582,6 +589,123 @@ func openEnded(c *Ctx, v ssa.Value, d int) (bool, string) {
 	return true, ""
 }
 
+// initConstInt: v is a load of a package-level variable that only its package initialiser assigns, from an integer constant.
+func initConstInt(p *eng.Prog, v ssa.Value) (int64, bool) {
+	u, ok := v.(*ssa.UnOp)
+	if !ok || u.Op != token.MUL {
+		return 0, false
+	}
+	g, ok := u.X.(*ssa.Global)
+	if !ok || !initOnlyGlobal(p, g) {
+		return 0, false
+	}
+	var val int64
+	n := 0
+	for f := range p.All {
+		if f.Pkg != g.Pkg {
+			continue
+		}
+		for _, b := range f.Blocks {
+			for _, ins := range b.Instrs {
+				if st, ok := ins.(*ssa.Store); ok && st.Addr == ssa.Value(g) {
+					k, isC := eng.ConstInt(st.Val)
+					if !isC {
+						k, isC = socksAddrLen(st.Val)
+					}
+					if !isC {
+						return 0, false
+					}
+					val = k
+					n++
+				}
+			}
+		}
+	}
+	return val, n == 1
+}
+
+// socksAddrLen: v is len(socks.ParseAddr("<ip literal>:port")) — the encoded length of that address form (1 type byte, 4 or 16
+// address bytes, 2 port bytes).
+func socksAddrLen(v ssa.Value) (int64, bool) {
+	lc, ok := v.(*ssa.Call)
+	if !ok {
+		return 0, false
+	}
+	if bi, ok := lc.Call.Value.(*ssa.Builtin); !ok || bi.Name() != "len" {
+		return 0, false
+	}
+	pc, ok := lc.Call.Args[0].(*ssa.Call)
+	if !ok || eng.CalleeName(&pc.Call) != "ss2/socks.ParseAddr" {
+		return 0, false
+	}
+	str, ok := eng.ConstString(pc.Call.Args[0])
+	if !ok {
+		return 0, false
+	}
+	host, _, err := net.SplitHostPort(str)
+	if err != nil {
+		return 0, false
+	}
+	ip := net.ParseIP(host)
+	switch {
+	case ip == nil:
+		return int64(1 + 1 + len(host) + 2), true
+	case ip.To4() != nil:
+		return 7, true
+	default:
+		return 19, true
+	}
+}
+
+// ruleBufSize: every buffer a UDP datagram is read into is at least as large as the largest UDP payload (65507 bytes): a smaller
+// buffer makes the kernel cut datagrams short silently — the datagram then fails to decrypt or is relayed/reported with a wrong size.
+func ruleBufSize(c *Ctx, a *udpAnchors, rule string) {
+	p := c.P
+	const maxUDP = 65507
+	var reads []*ssa.Call
+	if a.readFrom != nil {
+		reads = append(reads, a.readFrom)
+	}
+	for _, rs := range findReplySites(c, a) {
+		reads = append(reads, rs.reads...)
+	}
+	for _, m := range findMultiListeners(&Ctx{P: p, Prop: c.Prop}, "x") {
+		for _, pump := range m.pumps {
+			for _, cl := range eng.Calls(pump) {
+				if call, ok := cl.(*ssa.Call); ok && eng.CalleeName(&call.Call) == "(net.PacketConn).ReadFrom" {
+					reads = append(reads, call)
+				}
+			}
+		}
+	}
+	n := 0
+	for _, rd := range reads {
+		for _, o := range p.Origins(eng.Arg(&rd.Call, 0), eng.Deep) {
+			var size int64 = -1
+			switch x := o.(type) {
+			case *ssa.MakeSlice:
+				if k, ok := eng.ConstInt(x.Len); ok {
+					size = k
+				}
+			case *ssa.Alloc:
+				if pt, ok := x.Type().(*types.Pointer); ok {
+					if arr, ok := pt.Elem().Underlying().(*types.Array); ok {
+						size = arr.Len()
+					}
+				}
+			case *ssa.Parameter:
+				continue // a caller's buffer (the shared listener copies into it): sized by that caller's own read
+			}
+			if size < 0 {
+				continue
+			}
+			n++
+			c.CheckAt(rule, short(rd.Parent())+":datagram-buffer-holds-the-largest-UDP-payload", rd, size >= maxUDP, fmt.Sprintf("datagrams are read into a buffer of %d bytes, less than the largest UDP payload (%d): larger datagrams are truncated by the kernel without any error", size, maxUDP))
+		}
+	}
+	c.Floor(rule, "constant-size datagram read buffers", n, 2)
+}
+
 // rootParam: v derives only from parameters of the reply-loop root function.
 func rootParam(c *Ctx, v ssa.Value, rf *ssa.Function, typ string) bool {
 	g, _ := c.P.AllFrom(v, deepF, func(x ssa.Value) bool {
@@ -621,6 +745,74 @@ func ruleReplyAddr(c *Ctx, a *udpAnchors) {
 		for _, rd := range rs.reads {
 			ok, why := openEnded(c, eng.Arg(&rd.Call, 0), 0)
 			c.CheckAt("REPLYADDR", key+":read-buffer-reaches-the-end-of-the-packet-buffer", rd, ok, "the buffer replies are read into is cut short of the end of the packet buffer ("+why+"): an oversize reply is truncated by the kernel to a size that still packs, and the client receives a modified payload")
+		}
+		// each reply is encrypted once: Pack works in place, so packing again (a "retry with a fresh salt") encrypts ciphertext
+		for _, pk := range rs.packs {
+			g := pk.Parent()
+			isPack := func(ins ssa.Instruction) bool {
+				cl, ok := ins.(*ssa.Call)
+				return ok && eng.CalleeName(&cl.Call) == "sdk/shadowsocks.Pack"
+			}
+			_, mx, _ := eng.CountOnPaths(eng.Point{B: g.Blocks[0]}, isPack, nil)
+			c.CheckAt("REPLYADDR", key+":reply-packed-at-most-once", pk, mx <= 1, fmt.Sprintf("a reply can be packed %d times on one path: Pack encrypts in place, so the second call encrypts the ciphertext of the first and the client receives neither the sender address nor the payload", mx))
+		}
+		// every fixed-size sender address form passes the length guard of the reply path: a SOCKS IPv4 address is 1+4+2 = 7
+		// bytes, an IPv6 one 1+16+2 = 19 ("the true sender address (IPv4 or IPv6)")
+		for _, parse := range rs.parses {
+			g := parse.Parent()
+			for _, b := range g.Blocks {
+				iff, ok := b.Instrs[len(b.Instrs)-1].(*ssa.If)
+				if !ok {
+					continue
+				}
+				bo, ok := iff.Cond.(*ssa.BinOp)
+				if !ok {
+					continue
+				}
+				k, okK := eng.ConstInt(bo.Y)
+				if !okK {
+					k, okK = initConstInt(p, bo.Y)
+				}
+				lc, okL := bo.X.(*ssa.Call)
+				if !okK || !okL {
+					continue
+				}
+				bi, okB := lc.Call.Value.(*ssa.Builtin)
+				if !okB || bi.Name() != "len" || !p.AnyFrom(lc.Call.Args[0], deepF, func(v ssa.Value) bool { return v == ssa.Value(parse) }) {
+					continue
+				}
+				for _, L := range []int64{7, 19} {
+					var val bool
+					switch bo.Op {
+					case token.GTR:
+						val = L > k
+					case token.GEQ:
+						val = L >= k
+					case token.LSS:
+						val = L < k
+					case token.LEQ:
+						val = L <= k
+					case token.EQL:
+						val = L == k
+					case token.NEQ:
+						val = L != k
+					default:
+						continue
+					}
+					to := b.Succs[1]
+					if val {
+						to = b.Succs[0]
+					}
+					reach := eng.ReachBlocks(to, nil)
+					okP := false
+					for _, pk := range rs.packs {
+						if pk.Parent() == g && reach[pk.Block()] {
+							okP = true
+						}
+					}
+					c.CheckAt("REPLYADDR", fmt.Sprintf("%s:sender-address-of-%d-bytes-passes-the-length-guard", key, L), iff, okP, fmt.Sprintf("a sender address that encodes to %d bytes (%s) is rejected by the length guard of the reply path: replies from such targets are dropped", L, map[int64]string{7: "IPv4", 19: "IPv6"}[L]))
+				}
+			}
 		}
 		if len(rs.writes) == 0 {
 			c.CheckAt("REPLYADDR", key+":reply-sent-to-client", rs.reads[0], false, "the reply path never writes to the client connection")
